@@ -5,8 +5,8 @@
 
 namespace {
 
-enum SK { SK_CORO = 0, SK_BLOCK, SK_POLL, SK_NK };
-static const char *sk_names[] = {"coro", "block", "poll"};
+enum SK { SK_CORO = 0, SK_BLOCK, SK_POLL, SK_RANGE, SK_NK };
+static const char *sk_names[] = {"coro", "block", "poll", "range"};
 enum PS { PS_PUB2 = 0, PS_BATCH, PS_PUB1, PS_NK };
 static const char *ps_names[] = {"pub-pub-close", "pub-batch2-close", "pub-close"};
 static const char *mode_names[] = {"all", "behind", "recent"};
@@ -37,6 +37,10 @@ static void sub_thread(cocls::subscriber<int> &sub, int id, int kind, int total)
         case SK_CORO: coro_sub(sub, id).detach(); break;
         case SK_BLOCK:
             while (sub.next()) got(id, sub.value());  // blocking conversion to bool
+            vrt_scratch()[S_DONE + id]++;
+            break;
+        case SK_RANGE:
+            for (int &v : sub) got(id, v);  // iterator interface (blocking)
             vrt_scratch()[S_DONE + id]++;
             break;
         case SK_POLL:
